@@ -137,7 +137,6 @@ Section WithEnv.
   Lemma bv_ugt_den n a b : wfn n a -> wfn n b -> bden (bv_ugt n a b) = (den b <? den a).
   Proof.
     intros; unfold bv_ugt; rewrite bv_cmp_den; auto.
-    intros; unfold g_ugt_1; cbn [cmp_eval]; unfold bvult; apply Z.gtb_ltb.
   Qed.
   Lemma bv_ule_den n a b : wfn n a -> wfn n b -> bden (bv_ule n a b) = (den a <=? den b).
   Proof.
@@ -146,7 +145,6 @@ Section WithEnv.
   Lemma bv_uge_den n a b : wfn n a -> wfn n b -> bden (bv_uge n a b) = (den b <=? den a).
   Proof.
     intros; unfold bv_uge; rewrite bv_cmp_den; auto.
-    intros; unfold g_uge_1; cbn [cmp_eval]; unfold bvule; apply Z.geb_leb.
   Qed.
 
   Lemma bv_slt_den n a b : 0 < n -> wfn n a -> wfn n b ->
@@ -162,7 +160,7 @@ Section WithEnv.
     intros Hn Ha Hb. destruct a as [x|t], b as [y|u]; cbn [bv_sgt bv_cmp bl_den beval bv_den cmp_eval];
       rewrite ?z3_of_den by assumption; try reflexivity.
     unfold bvwf in *; cbn [bv_den] in *. rewrite !to_signed_gen by assumption.
-    unfold g_sgt_1. apply Z.gtb_ltb.
+    reflexivity.
   Qed.
 
   Lemma bv_eq_den n a b : wfn n a -> wfn n b -> bden (bv_eq n a b) = (den a =? den b).
@@ -262,7 +260,7 @@ Section WithEnv.
     - unfold g_lshl_1, g_lshl_2.
       destruct (Z.eqb_spec k 0) as [->|Hk0].
       { destruct (Z.ltb_spec 0 n); [|lia]. rewrite Z.pow_0_r, Z.mul_1_r, Z.mod_small; auto. }
-      destruct (Z.geb_spec k n) as [Hge|Hlt].
+      destruct (Z.leb_spec n k) as [Hge|Hlt].
       { destruct (Z.ltb_spec k n); [lia|]. rewrite mk_int_den by lia. apply Z.mod_0_l; lia. }
       destruct (Z.ltb_spec k n); [|lia].
       destruct a as [x|t]; cbn [bv_den eval binop_eval].
@@ -307,7 +305,7 @@ Section WithEnv.
       + rewrite mk_int_den, py_shr_div by lia.
         rewrite Z.mod_small by (apply div_pow2_range; lia).
         destruct (Z.ltb_spec k n); [reflexivity|]. apply (div_pow2_small x k n); lia.
-      + destruct (Z.geb_spec k n) as [Hge|Hlt].
+      + destruct (Z.leb_spec n k) as [Hge|Hlt].
         { destruct (Z.ltb_spec k n); [lia|]. rewrite mk_int_den by lia. apply Z.mod_0_l; lia. }
         cbn [bv_den eval binop_eval]. unfold bvlshr, bvmod. rewrite (Z.mod_small k) by lia. reflexivity.
     - cbn [eval binop_eval]. rewrite z3_of_den by assumption. reflexivity.
@@ -373,7 +371,7 @@ Section WithEnv.
   Proof.
     intros Ha Hi. unfold bv_byte, evm_byte, g_byte_1.
     change (e_byte_byte_length 256) with 32.
-    destruct (Z.geb_spec idx 32) as [Hge|Hlt].
+    destruct (Z.leb_spec 32 idx) as [Hge|Hlt].
     { destruct (Z.ltb_spec idx 32); [lia|]. reflexivity. }
     destruct (Z.ltb_spec idx 32); [|lia].
     assert (H8 : 0 <= (den a / 2 ^ (8 * (31 - idx))) mod 256 < 2 ^ 256).
@@ -428,7 +426,7 @@ Section WithEnv.
     den (bv_signextend a size) = evm_signextend size (den a).
   Proof.
     intros Ha Hs. unfold bv_signextend, evm_signextend, g_signextend_1, e_signextend_bl.
-    destruct (Z.geb_spec size 31) as [Hge|Hlt].
+    destruct (Z.leb_spec 31 size) as [Hge|Hlt].
     { destruct (Z.ltb_spec size 31); [lia|reflexivity]. }
     destruct (Z.ltb_spec size 31); [|lia].
     assert (E : forall X, bvsext ((size + 1) * 8) (256 - (size + 1) * 8) (bvextract ((size + 1) * 8 - 1) 0 X)
@@ -926,14 +924,14 @@ Section WithEnv.
     assert (Hslow : den (Sv (TUF Fexp n (z3_of n a) (z3_of n b))) = (den a ^ den b) mod 2 ^ n).
     { cbn [bv_den eval uf_eval]. rewrite !z3_of_den by assumption. apply modpow_spec; lia. }
     unfold bv_exp. destruct b as [y|u]; [|eexists; split; [reflexivity|exact Hslow]].
-    cbn [bv_den] in *. unfold g_exp_1, g_exp_2, g_exp_3.
+    cbn [bv_den] in *. unfold g_exp_1, g_exp_2.
     destruct (Z.eqb_spec y 0) as [->|Hy0].
     { eexists; split; [reflexivity|]. rewrite mk_int_den by lia. rewrite Z.pow_0_r. reflexivity. }
     destruct (Z.eqb_spec y 1) as [->|Hy1].
     { eexists; split; [reflexivity|]. rewrite Z.pow_1_r. symmetry; apply Z.mod_small; assumption. }
     destruct a as [x|t].
     - eexists; split; [reflexivity|]. apply mk_int_den; lia.
-    - destruct (y <=? sebc); (eexists; split; [reflexivity|]); [|exact Hslow].
+    - destruct (g_exp_3 y sebc); (eexists; split; [reflexivity|]); [|exact Hslow].
       rewrite exp_loop_den by assumption. rewrite Z2Nat.id by lia.
       replace (den (Sv t) ^ (y - 1) * den (Sv t)) with (den (Sv t) ^ y); [reflexivity|].
       replace y with (Z.succ (y - 1)) at 1 by lia. rewrite Z.pow_succ_r by lia. ring.
